@@ -8,7 +8,9 @@ From M Require UnitTable.
 From M Require NumSyntax.
 From M Require ArrayRoundTrip.
 From M Require Tie.
+From M Require ParseLocal.
 From M Require DecSpec.
+From M Require Framing2.
 From M Require GFmt.
 From M Require GFmtSpec.
 From M Require Generated.
@@ -198,4 +200,24 @@ Theorem C04_tie_ctype :
 Proof. exact (@Tie.tie_ctype). Qed.
 End T_tie_ctype.
 Definition C04_tie_ctype := @T_tie_ctype.C04_tie_ctype.
+
+Module T_strto_app_t. Import ParseLocal. Local Open Scope bool_scope. Local Open Scope Z_scope.
+Import ParserModel Framing2. Local Open Scope Z_scope.
+Theorem C04_strto_app_t :
+  forall (y:bytes) (tl c:N) (l':bytes) base,
+  tl = 10%N \/ tl = 13%N -> base <= 99 -> isspace c = false -> In tl (c :: l') ->
+  strto ((c :: l') ++ y) base = strto (c :: l') base.
+Proof. exact (@ParseLocal.strto_app_t). Qed.
+End T_strto_app_t.
+Definition C04_strto_app_t := @T_strto_app_t.C04_strto_app_t.
+
+Module T_strtod_exact_app_t. Import ParseLocal. Local Open Scope bool_scope. Local Open Scope Z_scope.
+Import ParserModel Framing2. Local Open Scope Z_scope.
+Theorem C04_strtod_exact_app_t :
+  forall (y:list N) (tl c:N) (l':list N),
+  tl = 10%N \/ tl = 13%N -> NumDecode.isspace c = false -> In tl (c :: l') ->
+  NumDecode.strtod_exact ((c :: l') ++ y) = NumDecode.strtod_exact (c :: l').
+Proof. exact (@ParseLocal.strtod_exact_app_t). Qed.
+End T_strtod_exact_app_t.
+Definition C04_strtod_exact_app_t := @T_strtod_exact_app_t.C04_strtod_exact_app_t.
 
